@@ -49,6 +49,7 @@ func (a Action) strs(k string) []string {
 type AbsState struct {
 	Conn   []string            `json:"conn"`
 	Known  map[string][]string `json:"known"`
+	Feats  map[string][]FeatVer `json:"feats"`
 	Subs   []RegEntry          `json:"subs"`
 	Binds  []RegEntry          `json:"binds"`
 	SubIds []uint64            `json:"subids"`
@@ -59,6 +60,10 @@ type AbsState struct {
 	RData  map[string]int      `json:"rdata"`
 	Res    map[string]bool     `json:"res"`  // peer resolvable by SKI
 	ResA   map[string]bool     `json:"resa"` // peer resolvable by device address
+}
+type FeatVer struct {
+	F string `json:"f"`
+	V int    `json:"v"`
 }
 type RegEntry struct {
 	P string `json:"p"`
@@ -127,6 +132,80 @@ func (s *System) nmLocal() *model.FeatureAddressType { return s.localAddr("NM") 
 
 // discovery payload announcing the given entities of peer p (features from the topology)
 func (s *System) discoveryData(p *Peer, ents []string, state *model.NetworkManagementStateChangeType, withFeatures bool, devInEnt bool) *model.NodeManagementDetailedDiscoveryDataType {
+	var items []annItem
+	for _, e := range ents {
+		it := annItem{E: e, V: 1, State: state}
+		if withFeatures {
+			for n, f := range s.topo.RF {
+				if f.Ent == e {
+					it.Fs = append(it.Fs, n)
+				}
+			}
+		}
+		items = append(items, it)
+	}
+	return s.discoveryItems(p, items, devInEnt)
+}
+
+type annItem struct {
+	E     string
+	Fs    []string
+	V     int
+	State *model.NetworkManagementStateChangeType
+}
+
+// featureDescription: what version v of catalogue feature n announces (description and operations)
+func (s *System) featureDescription(p *Peer, n string, v int) *model.NetworkManagementFeatureDescriptionDataType {
+	f := s.topo.RF[n]
+	fd := &model.NetworkManagementFeatureDescriptionDataType{FeatureAddress: s.remoteAddr(p, n), FeatureType: ptr(model.FeatureTypeType(f.Type)),
+		Role: ptr(model.RoleType(f.Role)), Description: ptr(model.DescriptionType(fmt.Sprintf("feature %s v%d", n, v)))}
+	ops := &model.PossibleOperationsType{Read: &model.PossibleOperationsReadType{}}
+	if v == 2 {
+		ops.Write = &model.PossibleOperationsWriteType{Partial: &model.ElementTagType{}}
+	}
+	if f.Role == "server" {
+		for _, fn := range remoteServerFns(f.Type) {
+			fd.SupportedFunction = append(fd.SupportedFunction, model.FunctionPropertyType{Function: ptr(fnMap[fn]), PossibleOperations: ops})
+		}
+	}
+	if f.Role == "special" {
+		fd.SupportedFunction = append(fd.SupportedFunction, model.FunctionPropertyType{Function: ptr(model.FunctionTypeNodeManagementDetailedDiscoveryData),
+			PossibleOperations: &model.PossibleOperationsType{Read: &model.PossibleOperationsReadType{}}})
+	}
+	return fd
+}
+
+// featVersion reads the announced version back from the tree the API reports (0 = anything unexpected)
+func (s *System) featVersion(n string, f api.FeatureRemoteInterface) int {
+	cat, ok := s.topo.RF[n]
+	if !ok || string(f.Type()) != cat.Type || string(f.Role()) != cat.Role || f.Description() == nil {
+		return 0
+	}
+	v := 0
+	switch string(*f.Description()) {
+	case "feature " + n + " v1":
+		v = 1
+	case "feature " + n + " v2":
+		v = 2
+	}
+	if cat.Role == "server" {
+		fns := remoteServerFns(cat.Type)
+		if len(f.Operations()) != len(fns) {
+			return 0
+		}
+		for _, fn := range fns {
+			op, ok := f.Operations()[fnMap[fn]]
+			if !ok || !op.Read() || op.ReadPartial() || op.Write() != (v == 2) || op.WritePartial() != (v == 2) {
+				return 0
+			}
+		}
+	} else if len(f.Operations()) != 0 && cat.Role != "special" {
+		return 0
+	}
+	return v
+}
+
+func (s *System) discoveryItems(p *Peer, items []annItem, devInEnt bool) *model.NodeManagementDetailedDiscoveryDataType {
 	dev := model.AddressDeviceType(p.devAddr)
 	d := &model.NodeManagementDetailedDiscoveryDataType{
 		SpecificationVersionList: &model.NodeManagementSpecificationVersionListType{SpecificationVersion: []model.SpecificationVersionDataType{"1.3.0"}},
@@ -134,7 +213,8 @@ func (s *System) discoveryData(p *Peer, ents []string, state *model.NetworkManag
 			DeviceAddress: &model.DeviceAddressType{Device: &dev}, DeviceType: ptr(model.DeviceTypeTypeChargingStation),
 			NetworkFeatureSet: ptr(model.NetworkManagementFeatureSetTypeSmart)}},
 	}
-	for _, e := range ents {
+	for _, it := range items {
+		e := it.E
 		ea := &model.EntityAddressType{Entity: entAddr(e)}
 		if devInEnt {
 			ea.Device = &dev
@@ -144,34 +224,12 @@ func (s *System) discoveryData(p *Peer, ents []string, state *model.NetworkManag
 			et = model.EntityTypeTypeDeviceInformation
 		}
 		d.EntityInformation = append(d.EntityInformation, model.NodeManagementDetailedDiscoveryEntityInformationType{
-			Description: &model.NetworkManagementEntityDescriptionDataType{EntityAddress: ea, EntityType: &et, LastStateChange: state,
+			Description: &model.NetworkManagementEntityDescriptionDataType{EntityAddress: ea, EntityType: &et, LastStateChange: it.State,
 				Description: ptr(model.DescriptionType("entity " + e))}})
-		if !withFeatures {
-			continue
-		}
-		var names []string
-		for n, f := range s.topo.RF {
-			if f.Ent == e {
-				names = append(names, n)
-			}
-		}
+		names := append([]string{}, it.Fs...)
 		sort.Strings(names)
 		for _, n := range names {
-			f := s.topo.RF[n]
-			fa := s.remoteAddr(p, n)
-			fd := &model.NetworkManagementFeatureDescriptionDataType{FeatureAddress: fa, FeatureType: ptr(model.FeatureTypeType(f.Type)),
-				Role: ptr(model.RoleType(f.Role)), Description: ptr(model.DescriptionType("feature " + n))}
-			if f.Role == "server" {
-				for _, fn := range remoteServerFns(f.Type) {
-					fd.SupportedFunction = append(fd.SupportedFunction, model.FunctionPropertyType{Function: ptr(fnMap[fn]),
-						PossibleOperations: &model.PossibleOperationsType{Read: &model.PossibleOperationsReadType{}, Write: &model.PossibleOperationsWriteType{}}})
-				}
-			}
-			if f.Role == "special" {
-				fd.SupportedFunction = append(fd.SupportedFunction, model.FunctionPropertyType{Function: ptr(model.FunctionTypeNodeManagementDetailedDiscoveryData),
-					PossibleOperations: &model.PossibleOperationsType{Read: &model.PossibleOperationsReadType{}}})
-			}
-			d.FeatureInformation = append(d.FeatureInformation, model.NodeManagementDetailedDiscoveryFeatureInformationType{Description: fd})
+			d.FeatureInformation = append(d.FeatureInformation, model.NodeManagementDetailedDiscoveryFeatureInformationType{Description: s.featureDescription(p, n, it.V)})
 		}
 	}
 	return d
@@ -263,6 +321,39 @@ func (s *System) exec(a Action, p *Peer, line *TraceLine) (injected uint64) {
 		injected = s.inject(p, model.CmdClassifierTypeNotify, s.remoteAddr(p, "nm"), s.nmLocal(), ack, nil,
 			model.CmdType{Function: ptr(model.FunctionTypeNodeManagementDetailedDiscoveryData), Filter: []model.FilterType{*model.NewFilterTypePartial()},
 				NodeManagementDetailedDiscoveryData: d})
+	case "ann":
+		kind := a.str("kind")
+		var items []annItem
+		if kind != "partial" {
+			items = append(items, annItem{E: "0", Fs: []string{"nm"}, V: 1})
+		}
+		raw, _ := a["items"].([]any)
+		for _, x := range raw {
+			m := Action(x.(map[string]any))
+			it := annItem{E: m.str("e"), Fs: m.strs("fs"), V: m.num("v")}
+			if kind == "partial" {
+				st := model.NetworkManagementStateChangeType(m.str("chg"))
+				it.State = &st
+			}
+			items = append(items, it)
+		}
+		d := s.discoveryItems(p, items, a.str("dev") != "omit")
+		cmd := model.CmdType{NodeManagementDetailedDiscoveryData: d}
+		cls := model.CmdClassifierTypeNotify
+		var ref *uint64
+		switch kind {
+		case "reply":
+			cls = model.CmdClassifierTypeReply
+			if c, ok := p.lastReq["discovery"]; ok {
+				ref = &c
+			} else {
+				ref = ptr(uint64(424242))
+			}
+		case "partial":
+			cmd.Function = ptr(model.FunctionTypeNodeManagementDetailedDiscoveryData)
+			cmd.Filter = []model.FilterType{*model.NewFilterTypePartial()}
+		}
+		injected = s.inject(p, cls, s.remoteAddr(p, "nm"), s.nmLocal(), ack, ref, cmd)
 	case "sub", "bind", "unsub", "unbind":
 		ca := s.remoteAddr(p, a.str("c"))
 		sa := s.localAddr(a.str("s"))
@@ -358,11 +449,12 @@ func emptyData(fn string) any {
 // ---------- projection through public getters ----------
 
 func (s *System) project() *AbsState {
-	st := &AbsState{Conn: []string{}, Known: map[string][]string{}, Subs: []RegEntry{}, Binds: []RegEntry{}, SubIds: []uint64{}, BindIds: []uint64{},
+	st := &AbsState{Conn: []string{}, Known: map[string][]string{}, Feats: map[string][]FeatVer{}, Subs: []RegEntry{}, Binds: []RegEntry{}, SubIds: []uint64{}, BindIds: []uint64{},
 		CSub: []CEntry{}, CBind: []CEntry{}, Data: map[string]int{}, RData: map[string]int{}, Res: map[string]bool{}, ResA: map[string]bool{}}
 	for _, pn := range s.topo.Peers {
 		p := s.peers[pn]
 		st.Known[pn] = []string{}
+		st.Feats[pn] = []FeatVer{}
 		rd := s.dev.RemoteDeviceForSki(p.ski)
 		st.Res[pn] = rd != nil
 		st.ResA[pn] = s.dev.RemoteDeviceForAddress(model.AddressDeviceType(p.devAddr)) != nil
@@ -374,8 +466,20 @@ func (s *System) project() *AbsState {
 			st.Conn = append(st.Conn, pn)
 			for _, e := range rd.Entities() {
 				st.Known[pn] = append(st.Known[pn], entStr(e.Address().Entity))
+				for _, f := range e.Features() {
+					n := s.remoteName(p, f.Address())
+					if n == "nm" || n == "nm@nodev" { // the node management feature exists from connection setup on
+						continue
+					}
+					st.Feats[pn] = append(st.Feats[pn], FeatVer{F: n, V: s.featVersion(n, f)})
+					// every announced feature address resolves back to that feature
+					if rd.FeatureByAddress(f.Address()) != f {
+						st.Feats[pn] = append(st.Feats[pn], FeatVer{F: n + "!unresolvable", V: 0})
+					}
+				}
 			}
 			sort.Strings(st.Known[pn])
+			sort.Slice(st.Feats[pn], func(i, j int) bool { return st.Feats[pn][i].F < st.Feats[pn][j].F })
 		}
 	}
 	// registries are read per local feature so that entries of vanished peers are still seen
